@@ -105,13 +105,28 @@ package bpmn
 // i-th lookup filling position i.
 //@ func sequenceFlows
 //@   prop C04 C01
-//@   requires process != nil && flows != nil
 //@   ensures [one-entry-per-listed-flow] err == nil ==> len(result) == len(*flows)
 //@   ensures [every-listed-flow-is-looked-up-on-its-own-in-list-order] err == nil ==>
 //@             count(Call, code("schema|Element.FindBy")) == old(count(Call, code("schema|Element.FindBy"))) + len(*flows)
+//@   ensures [looking-flows-up-registers-no-listener] count(Call, code("event|ISource.RegisterEventConsumer")) == old(count(Call, code("event|ISource.RegisterEventConsumer")))
 //@   loop 1 range result
 //@     invariant len(result) == len(*flows) && fresh(base(result)) && err == nil
 //@     invariant [position-i-is-filled-by-the-ith-lookup] count(Call, code("schema|Element.FindBy")) == old(count(Call, code("schema|Element.FindBy"))) + i
+//@     invariant count(Call, code("event|ISource.RegisterEventConsumer")) == old(count(Call, code("event|ISource.RegisterEventConsumer")))
+
+// A node's wiring (and the copy made for a boundary event) looks the node's flows up and registers nothing; the copy
+// keeps the process, tracer and event wiring of the original (not the locator: boundary listeners read none).
+//@ func newWiring
+//@   prop C04 C10
+//@   ensures [wiring-a-node-registers-no-listener] count(Call, code("event|ISource.RegisterEventConsumer")) == old(count(Call, code("event|ISource.RegisterEventConsumer")))
+//@   ensures [the-node-keeps-its-flow-lists] err == nil ==> node != nil && fresh(node) && len(node.incoming) == len(*flowNode.Incomings()) && len(node.outgoing) == len(*flowNode.Outgoings())
+//@ func (*wiring).CloneFor
+//@   prop C04 C10
+//@   ensures [wiring-a-node-registers-no-listener] count(Call, code("event|ISource.RegisterEventConsumer")) == old(count(Call, code("event|ISource.RegisterEventConsumer")))
+//@   ensures [the-copy-keeps-the-surroundings] err == nil ==> result != nil && fresh(result) && result.process == wr.process && result.tracer == wr.tracer &&
+//@             result.eventEgress == wr.eventEgress && result.eventIngress == wr.eventIngress &&
+//@             result.flowWaitGroup == wr.flowWaitGroup && result.flowNodeMapping == wr.flowNodeMapping && result.definitions == wr.definitions
+//@   ensures [the-copy-has-the-boundary-nodes-own-flow-lists] err == nil ==> len(result.incoming) == len(*node.Incomings()) && len(result.outgoing) == len(*node.Outgoings())
 
 // ---------------------------------------------------------------------------
 // gateway_parallel.go
